@@ -22,58 +22,58 @@ import (
 )
 
 type Job struct {
-	Label   string
-	Pkg     string // import path of the harness package
-	Func    string
-	InitPkg string // package whose init chain is run first ("" = Pkg)
-	Tune    func(c *Config)
-	Args    func(e *Exec) []Value
+	Label    string
+	Pkg      string // import path of the harness package
+	Func     string
+	InitPkg  string // package whose init chain is run first ("" = Pkg)
+	Tune     func(c *Config)
+	Args     func(e *Exec) []Value
 	NoReplay bool
 	// KeyOf derives the known-finding key of a failure (default: "<Func>: <msg>")
 	KeyOf func(f *AssertFail) string
 	// PanicsAreFindings: a path ending in an uncaught Go panic is a candidate violation
 	PanicsAreFindings bool
-	MustCover []string
+	MustCover         []string
 }
 
 type JobResult struct {
-	Job *Job
-	Res *Result
-	Err string
+	Job      *Job
+	Res      *Result
+	Err      string
 	Poisoned map[string]int
 }
 
 type Finding struct {
-	Key       string            `json:"key"`
-	Msg       string            `json:"msg"`
-	Func      string            `json:"func"`
-	Pkg       string            `json:"pkg"`
-	Model     map[string]string `json:"model,omitempty"`
-	Nondet    []NondetRec       `json:"nondet,omitempty"`
-	Site      string            `json:"site,omitempty"`
-	Kind      string            `json:"kind"` // assert | panic
-	Confirmed string            `json:"confirmed"` // yes | no | unknown
-	ReplayOut string            `json:"replay_out,omitempty"`
-	ReplayPath string           `json:"replay_path,omitempty"`
+	Key        string            `json:"key"`
+	Msg        string            `json:"msg"`
+	Func       string            `json:"func"`
+	Pkg        string            `json:"pkg"`
+	Model      map[string]string `json:"model,omitempty"`
+	Nondet     []NondetRec       `json:"nondet,omitempty"`
+	Site       string            `json:"site,omitempty"`
+	Kind       string            `json:"kind"`      // assert | panic
+	Confirmed  string            `json:"confirmed"` // yes | no | unknown
+	ReplayOut  string            `json:"replay_out,omitempty"`
+	ReplayPath string            `json:"replay_path,omitempty"`
 }
 
 type Check struct {
-	ID    string
-	Tier  string
-	Seed  int64
-	T0    time.Time
-	Ld    *Loaded
-	Jobs  []*Job
-	Results []*JobResult
-	Findings []*Finding
-	Assumptions []string
-	Notes []string
+	ID           string
+	Tier         string
+	Seed         int64
+	T0           time.Time
+	Ld           *Loaded
+	Jobs         []*Job
+	Results      []*JobResult
+	Findings     []*Finding
+	Assumptions  []string
+	Notes        []string
 	Inconclusive []string
-	Extra map[string]interface{}
-	Technique string
-	sideOK int
-	sideTotal int
-	Samples []interface{}
+	Extra        map[string]interface{}
+	Technique    string
+	sideOK       int
+	sideTotal    int
+	Samples      []interface{}
 }
 
 type checkFn func(c *Check)
@@ -458,21 +458,21 @@ func (c *Check) writeEvidence(viol int) {
 	validated, _ := c.Extra["traces_validated_against_impl"].(int)
 	cov := map[string]interface{}{
 		"states": states, "transitions": trans, "traces_validated_against_impl": validated, "samples": samples,
-		"explanation":          "states = feasible paths explored by the symbolic executor over the go/ssa form of /repo's current source; transitions = SMT queries discharged (branch feasibility + assertions); an assertion counts as proved only on `unsat`",
-		"assertions":           asserts,
-		"assertions_unsat":     assertsOK,
-		"solver_ms":            solverMs,
-		"solver":               "z3-new 5.1.0 (z3 -in, one process per job, push/pop)",
-		"functions_encoded":    fl,
-		"stubs_used":           stubs,
-		"unwind_cuts":          unwindCuts,
-		"jobs":                 jobsum,
-		"inconclusive":         c.Inconclusive,
-		"notes":                c.Notes,
-		"side_conditions":      map[string]int{"checked": c.sideTotal, "held": c.sideOK},
-		"harness_files":        c.harnessFiles(),
-		"source_fingerprint":   repoFingerprint(),
-		"load_build_s":         loadSecs(c.Ld),
+		"explanation":        "states = feasible paths explored by the symbolic executor over the go/ssa form of /repo's current source; transitions = SMT queries discharged (branch feasibility + assertions); an assertion counts as proved only on `unsat`",
+		"assertions":         asserts,
+		"assertions_unsat":   assertsOK,
+		"solver_ms":          solverMs,
+		"solver":             "z3-new 5.1.0 (z3 -in, one process per job, push/pop)",
+		"functions_encoded":  fl,
+		"stubs_used":         stubs,
+		"unwind_cuts":        unwindCuts,
+		"jobs":               jobsum,
+		"inconclusive":       c.Inconclusive,
+		"notes":              c.Notes,
+		"side_conditions":    map[string]int{"checked": c.sideTotal, "held": c.sideOK},
+		"harness_files":      c.harnessFiles(),
+		"source_fingerprint": repoFingerprint(),
+		"load_build_s":       loadSecs(c.Ld),
 	}
 	for k, v := range c.Extra {
 		cov[k] = v
